@@ -39,6 +39,30 @@ class _D(Domain):
         return None
 
 
+class _DEx(_D):
+    """Inside `except X as ex` the caught instance is an object: never None,
+    and (Exception defines neither __bool__ nor __len__) truthy."""
+    ex_name = None
+
+    def decide(self, state, sym, node):
+        n = sym.node
+        if isinstance(n, ast.Name) and n.id == self.ex_name:
+            return True
+        if isinstance(n, ast.UnaryOp) and isinstance(n.op, ast.Not) \
+                and isinstance(n.operand, ast.Name) \
+                and n.operand.id == self.ex_name:
+            return False
+        if isinstance(n, ast.Compare) and len(n.ops) == 1 and isinstance(
+                n.ops[0], (ast.Is, ast.IsNot)):
+            a, b = n.left, n.comparators[0]
+            if isinstance(a, ast.Constant) and a.value is None:
+                a, b = b, a
+            if isinstance(a, ast.Name) and a.id == self.ex_name \
+                    and isinstance(b, ast.Constant) and b.value is None:
+                return isinstance(n.ops[0], ast.IsNot)
+        return super().decide(state, sym, node)
+
+
 def _calls(tr):
     return [(i, e) for i, e in enumerate(tr) if e.kind == 'call'
             and isinstance(e.sym.node, ast.Call)]
@@ -226,9 +250,53 @@ def plumbing(program, rep):
         # the handler body is walked (helpers that perform the switch are
         # followed); every path makes exactly one self.switch(handle,
         # clear_current, clear_next) with the fields of the caught exception
-        w = Walker(program, _D(program))
-        hexits = w.run_block(lp, handlers[0].body, sl)
+        dom = _DEx(program)
+        dom.ex_name = ex
+        w = Walker(program, dom)
+        # one frame of the loop: the statements of the enclosing while body,
+        # the try replaced by the handler (a frame that raised SwitchWorld) or
+        # by its body (a frame that did not) - so that a switch performed
+        # after the try, from a value the handler stored, is followed too
+        try0 = [t for t in ast.walk(lp.node) if isinstance(t, ast.Try)
+                and handlers[0] in t.handlers]
+        wl0 = [x for x in ast.walk(lp.node) if isinstance(x, ast.While)
+               and try0 and try0[0] in x.body]
+
+        def frame(exc):
+            out = []
+            for s_ in wl0[0].body:
+                if s_ is try0[0]:
+                    out += (handlers[0].body if exc else s_.body + s_.orelse
+                            ) + s_.finalbody
+                else:
+                    out.append(s_)
+            return out
+        hexits = w.run_block(lp, frame(True) if wl0 else handlers[0].body, sl)
         ok = bool(hexits)
+        if wl0:
+            for hx in Walker(program, _D(program)).run_block(
+                    lp, frame(False), sl):
+                for _, e in _calls(hx.state.trace):
+                    if norm(e.sym.node.func) != 'self.switch':
+                        continue
+                    roots = {r_.id for a_ in list(e.sym.node.args) + [
+                        k_.value for k_ in e.sym.node.keywords]
+                        for r_ in ast.walk(a_) if isinstance(r_, ast.Name)}
+                    if roots - {'self'}:
+                        rep.bad('C13.order', lp.where, e.sym.node,
+                                'a frame that raised no SwitchWorld still '
+                                f'reaches self.switch with {sorted(roots - {"self"})} '
+                                'left over from an earlier frame (the stored '
+                                'request is not reset per frame): every later '
+                                'frame switches again',
+                                line=e.sym.node.lineno)
+                    else:
+                        rep.inconclusive(
+                            'C13.order', lp.where, e.sym.node,
+                            'a frame that raised no SwitchWorld reaches '
+                            'self.switch with state kept on self: whether '
+                            'that state is consumed exactly once is not '
+                            'modelled')
         for hx in hexits:
             calls = [e.sym.node for _, e in _calls(hx.state.trace)
                      if norm(e.sym.node.func) == 'self.switch']
